@@ -138,7 +138,10 @@ def h_blockreduce(ctx):
     br = vd.BlockReduce(_reduction(ctx, red), region=region, center_coordinates=cfg.get("center", False), drop_coords=cfg.get("drop", True), **kw)
     darg = tuple(data2) if ncomp > 1 else data2[0]
     warg = None if weights2 is None else (tuple(weights2) if ncomp > 1 else weights2[0])
+    params_before = dict(br.get_params())
     coords, out = br.filter((e2, n2, x2), darg, warg)
+    params_after = br.get_params()
+    ctx.claim("filter leaves the reducer's parameters untouched (a later call on other data is not affected)", And(set(params_after) == set(params_before), all(params_after[k] is params_before[k] for k in params_before)))
     outs = list(out) if ncomp > 1 else [out]
     ctx.claim("tuple of components iff several components", isinstance(out, tuple) == (ncomp > 1))
     blocks = sorted(set(members))
@@ -167,6 +170,37 @@ def h_blockreduce(ctx):
         ctx.claim("inputs left read-only and unmodified", not a.flags.writeable)
 
 
+def _kd_globals(cfg):
+    return stubs.kdtree_globals()
+
+
+def h_two_calls(ctx):
+    """the same instance (region inferred from the data) filters dataset A, then dataset B with another
+    extent: the second result equals that of a fresh instance"""
+    cfg = ctx.cfg
+    A = [(0.0, 0.0), (10.0, 10.0), (1.0, 1.0), (9.0, 2.0)]
+    B = [(100.0, 50.0), (104.0, 52.0), (101.0, 50.5), (103.5, 51.5), (103.0, 50.25)]
+    dA, dB = ctx.reals("A", len(A)), ctx.reals("B", len(B))
+    red = _reduction(ctx, cfg["reduction"])
+
+    def run(br, pts, d):
+        e = np.array([p[0] for p in pts])
+        n = np.array([p[1] for p in pts])
+        return br.filter((e, n), d)
+
+    used = vd.BlockReduce(red, shape=tuple(cfg["shape"]), center_coordinates=cfg.get("center", False))
+    run(used, A, dA)
+    c1, o1 = run(used, B, dB)
+    c2, o2 = run(vd.BlockReduce(red, shape=tuple(cfg["shape"]), center_coordinates=cfg.get("center", False)), B, dB)
+    ctx.claim("second call gives as many blocks as a fresh reducer", And(len(o1) == len(o2), len(c1[0]) == len(c2[0])))
+    if len(o1) == len(o2):
+        for a, b in zip(o1, o2):
+            ctx.claim("a reducer that already filtered other data behaves like a fresh one (values)", eq(a, b))
+        for k in range(2):
+            for a, b in zip(c1[k], c2[k]):
+                ctx.claim("a reducer that already filtered other data behaves like a fresh one (coordinates)", eq(a, b))
+
+
 def _cfg(tier, seed):
     out = []
     S = [((1, 2), [0, 0, 1]), ((2, 2), [3, 0, 3, 0]), ((1, 3), [2, 0, 2])]
@@ -188,6 +222,15 @@ def _cfg(tier, seed):
 
 
 HARNESSES = [
+    Harness(
+        "two_calls_inferred_region",
+        h_two_calls,
+        lambda tier, seed: [{"shape": (1, 2), "reduction": "sum"}, {"shape": (2, 2), "reduction": "mean", "center": True}],
+        bounds="two concrete point clouds with different extents (4 and 5 points), symbolic data, region inferred, the real block_split over the kd-tree contract",
+        stubs=["cKDTree -> nearest-neighbour contract"],
+        extra_globals=_kd_globals,
+        engine={"oneshot": True},
+    ),
     Harness(
         "blockreduce_filter",
         h_blockreduce,
